@@ -76,6 +76,10 @@ fn main() {
                 "batch" => dbops.push(api::DbOp::Batch(t[2..].chunks(2).map(|c| (unhex(c[0]), if c[1] == "!" { None } else { Some(unhex(c[1])) })).collect())),
                 "reopen" => dbops.push(api::DbOp::Reopen(t[2] == "reuse")),
                 "plant" => dbops.push(api::DbOp::Plant),
+                // compact_level <level> <lo|-> <hi|->   ('-' = open end)
+                "compact_level" => dbops.push(api::DbOp::CompactLevel(t[2].parse().unwrap(), if t[3] == "-" { None } else { Some(unhex(t[3])) }, if t[4] == "-" { None } else { Some(unhex(t[4])) })),
+                "release" => dbops.push(api::DbOp::ReleaseSnapshot),
+                "reopen_small" => dbops.push(api::DbOp::ReopenSmallFiles(t[2].parse().unwrap())),
                 _ => panic!("bad db op"),
             },
             "entry" => entries.push((unhex(t[1]), t[2].parse().unwrap(), t[3].parse().unwrap(), unhex(t[4]))),
@@ -173,7 +177,8 @@ fn main() {
                     api::DbOp::Batch(ops) => { for (k, v) in ops { model.insert(k.clone(), v.clone()); allkeys.insert(k.clone()); } }
                     api::DbOp::Snapshot => frozen.push((i, model.clone())),
                     api::DbOp::PinIterator(_) => frozen_pins.push((i, model.clone())),
-                    api::DbOp::Reopen(_) => { frozen.clear(); frozen_pins.clear(); }
+                    api::DbOp::Reopen(_) | api::DbOp::ReopenSmallFiles(_) => { frozen.clear(); frozen_pins.clear(); }
+                    api::DbOp::ReleaseSnapshot => { if !frozen.is_empty() { frozen.remove(0); } }
                     _ => {}
                 }
             }
